@@ -1,7 +1,7 @@
 (* C08 - property theorems.  Only statements closed by [exact]; proofs live in Delayed/*.v. *)
 From Coq Require Import List ZArith String Bool Arith.
 Import ListNotations.
-From NV Require Import Delayed.Model Delayed.Spec Delayed.Tracked Delayed.Rel Delayed.Main Delayed.Refuted.
+From NV Require Import Delayed.Model Delayed.Spec Delayed.Tracked Delayed.Rel Delayed.Main Delayed.Refuted Delayed.ReachTable.
 
 (* pending_tracked, one statement per primitive *)
 Theorem C08_pending_tracked_at : forall es p i,
@@ -147,3 +147,9 @@ Theorem C08_concat_label_refuted :
     force 8 (TObs (OConcatL l) from_caller) = Err EBlame /\
     force 8 (TObs OId from_caller) = Err EBlameNeg.
 Proof. exact concat_label_refuted. Qed.
+
+(* the per-observer closed form of the reach predicate (index arithmetic) agrees with [reaches] *)
+Theorem C08_reach_table_correct : forall o zs p b m,
+  reach_table o (List.length zs) p = Some b ->
+  reaches (S (S (S (S m)))) (KArr (nums zs)) o [p] = b.
+Proof. exact reach_table_correct. Qed.
